@@ -333,6 +333,14 @@ fn check<E: EndianParse + core::fmt::Debug>(e: E, o: &Obj, c: &mut Choice, obs: 
     for extra in [".te", ".text.ho", ".text.hot.x", "", ".", "ext", ".nosuch", ".data"] {
         qnames.push(extra.to_string());
     }
+    // queries with an interior or leading NUL that line up with adjacent string-table entries
+    for w in o.sec_names.windows(2) {
+        if let (Ok(a), Ok(b)) = (std::str::from_utf8(&w[0]), std::str::from_utf8(&w[1])) {
+            qnames.push(format!("{}\0{}", a, b));
+        }
+    }
+    qnames.push("\0.text".to_string());
+    qnames.push(".text\0".to_string());
     let mut dup_or_prefix = false;
     for q in &qnames {
         let want: Option<SectionHeader> = shstr.and_then(|tab| {
